@@ -125,7 +125,7 @@ Section Level.
         - inversion H; subst. destruct nl; lia.
         - destruct (parse_continuation l prepend) as [cont|].
           + apply IH in H; auto; cbn [length]; destruct (str_eqb cont [10]); lia.
-          + destruct (any_interrupt types BK_List (l :: r)); [inversion H; subst; destruct nl; lia|].
+          + destruct (item_interrupt types (l :: r)); [inversion H; subst; destruct nl; lia|].
             destruct (parse_marker l) as [[[[? ?] other] ?]|]; [destruct (same_marker_type ld other); inversion H; subst; try lia; destruct nl; lia|].
             destruct nl; [|inversion H; subst; lia].
             apply IH in H; auto; cbn [length]; destruct (str_eqb l [10]); lia. }
@@ -138,7 +138,7 @@ Section Level.
         - inversion H; subst. destruct nl; lia.
         - destruct (parse_continuation l pp) as [cont|].
           + apply IH in H; auto; cbn [length]; destruct (str_eqb cont [10]); lia.
-          + destruct (any_interrupt types BK_List (l :: r)); [inversion H; subst; destruct nl; lia|].
+          + destruct (item_interrupt types (l :: r)); [inversion H; subst; destruct nl; lia|].
             destruct (parse_marker l) as [[[[? ?] other] ?]|]; [destruct (same_marker_type ld other); inversion H; subst; try lia; destruct nl; lia|].
             destruct nl; [|inversion H; subst; lia].
             apply IH in H; auto; cbn [length]; destruct (str_eqb l [10]); lia. }
